@@ -12,14 +12,17 @@
 (*                                                                                                *)
 (* Layer P is the bottom part (ExitOk, Terminates, NoPanicExit, Deterministic): what the           *)
 (* properties C06/C07 demand of ANY implementation. The actions are layer M: what the code does.   *)
-EXTENDS Naturals, Sequences, FiniteSets, TLC
+EXTENDS Naturals, Sequences, FiniteSets, TLC, SequencesExt
 DP == INSTANCE DataPath
 
 CONSTANTS Files,        \* source files in the tree
           Workers,      \* walker threads
           Cap,          \* channel capacity (100 in the code)
           ResultKinds,  \* subset of {"none","ok","bad","err","panic"} explored for every file
-          Items         \* Items[f] = sequence of [name, kind] the file contributes when parsed
+          Items,        \* Items[f] = sequence of [name, kind] the file contributes when parsed
+          OutOf,        \* OutOf[f] = the output file the items of f go to (one for all in single-file mode, one per crate in folder mode)
+          SingleFile,   \* TRUE: -o (exactly one output, its absence is an error); FALSE: -d
+          GenKinds      \* subset of {"ok","generr"}: whether generating an output can be refused by the backend (consts in Kotlin, ...)
 
 \* result of parsing a file:
 \*   none  no #[typeshare] in it (Ok(None))            ok   ParsedData without errors
@@ -32,9 +35,18 @@ VARIABLES result,                 \* chosen once in Init: [Files -> ResultKinds]
           chan, rxOpen,           \* bounded channel; FALSE once the receiver is dropped
           col, acc,               \* collector state; files folded so far, in arrival order
           txMain,                 \* main still holds its Sender
-          main                    \* main thread / process outcome
+          main,                   \* main thread / process outcome
+          genres, todo, wrote     \* generation stage: backend verdict per output (chosen in Init); outputs still to generate, in
+                                  \* name order; outputs handed to the writer so far (written or found unchanged)
 
-vars == <<result, pool, quitMsgs, wpc, wfile, active, quitNow, chan, rxOpen, col, acc, txMain, main>>
+vars == <<result, pool, quitMsgs, wpc, wfile, active, quitNow, chan, rxOpen, col, acc, txMain, main, genres, todo, wrote>>
+gvars == <<genres, todo, wrote>>
+Outs == {OutOf[f] : f \in Files}
+RECURSIVE SeqOfSet(_)
+SeqOfSet(S) == IF S = {} THEN <<>> ELSE LET x == CHOOSE y \in S : TRUE IN <<x>> \o SeqOfSet(S \ {x})
+\* a total order on output names (TLC compares strings only for equality): position in a fixed enumeration
+OutSeq == SeqOfSet(Outs)
+Before(a, b) == (CHOOSE i \in 1..Len(OutSeq) : OutSeq[i] = a) < (CHOOSE i \in 1..Len(OutSeq) : OutSeq[i] = b)
 
 NoFile == "-"
 Finished(w) == wpc[w] \in {"exited", "dead"}
@@ -49,6 +61,7 @@ Init ==
     /\ col = "run" /\ acc = <<>>
     /\ txMain = TRUE
     /\ main = "walking"
+    /\ genres \in [Outs -> GenKinds] /\ todo = <<>> /\ wrote = {}
 
 \* ----------------------------------------------------------------- workers
 \* Worker::get_work, one pass through its loop
@@ -71,7 +84,7 @@ GetWork(w) ==
                THEN quitMsgs' = quitMsgs + 1 /\ wpc' = [wpc EXCEPT ![w] = "exited"]
                ELSE quitMsgs' = quitMsgs /\ wpc' = [wpc EXCEPT ![w] = "idle"]
             /\ UNCHANGED <<pool, wfile>>
-    /\ UNCHANGED <<result, quitNow, chan, rxOpen, col, acc, txMain, main>>
+    /\ UNCHANGED <<result, quitNow, chan, rxOpen, col, acc, txMain, main, genres, todo, wrote>>
 
 \* the sleep loop: a message became available
 IdleWake(w) ==
@@ -79,7 +92,7 @@ IdleWake(w) ==
     /\ pool # {} \/ quitMsgs > 0
     /\ active' = active + 1
     /\ wpc' = [wpc EXCEPT ![w] = "get"]
-    /\ UNCHANGED <<result, pool, quitMsgs, wfile, quitNow, chan, rxOpen, col, acc, txMain, main>>
+    /\ UNCHANGED <<result, pool, quitMsgs, wfile, quitNow, chan, rxOpen, col, acc, txMain, main, genres, todo, wrote>>
 
 \* the visitor closure up to the send
 Parse(w) ==
@@ -89,7 +102,7 @@ Parse(w) ==
                                    [] r = "none" -> "get"
                                    [] OTHER -> "send"]
     /\ wfile' = [wfile EXCEPT ![w] = IF result[wfile[w]] \in {"panic", "none"} THEN NoFile ELSE wfile[w]]
-    /\ UNCHANGED <<result, pool, quitMsgs, active, quitNow, chan, rxOpen, col, acc, txMain, main>>
+    /\ UNCHANGED <<result, pool, quitMsgs, active, quitNow, chan, rxOpen, col, acc, txMain, main, genres, todo, wrote>>
 
 \* tx.send(..): blocks while the channel is full; Err(SendError) once the receiver is gone, in which
 \* case the visitor returns WalkState::Quit (before fix e0dfe05 it unwrapped and the worker died).
@@ -105,20 +118,20 @@ Send(w) ==
             /\ chan' = Append(chan, wfile[w])
             /\ wpc' = [wpc EXCEPT ![w] = "sent"]
             /\ wfile' = wfile
-    /\ UNCHANGED <<result, pool, quitMsgs, active, quitNow, rxOpen, col, acc, txMain, main>>
+    /\ UNCHANGED <<result, pool, quitMsgs, active, quitNow, rxOpen, col, acc, txMain, main, genres, todo, wrote>>
 
 SendRet(w) ==
     /\ wpc[w] = "sent"
     /\ wpc' = [wpc EXCEPT ![w] = IF result[wfile[w]] = "err" THEN "quit" ELSE "get"]
     /\ wfile' = [wfile EXCEPT ![w] = NoFile]
-    /\ UNCHANGED <<result, pool, quitMsgs, active, quitNow, chan, rxOpen, col, acc, txMain, main>>
+    /\ UNCHANGED <<result, pool, quitMsgs, active, quitNow, chan, rxOpen, col, acc, txMain, main, genres, todo, wrote>>
 
 \* WalkState::Quit -> Worker::quit_now()
 Quit(w) ==
     /\ wpc[w] = "quit"
     /\ quitNow' = TRUE
     /\ wpc' = [wpc EXCEPT ![w] = "get"]
-    /\ UNCHANGED <<result, pool, quitMsgs, wfile, active, chan, rxOpen, col, acc, txMain, main>>
+    /\ UNCHANGED <<result, pool, quitMsgs, wfile, active, chan, rxOpen, col, acc, txMain, main, genres, todo, wrote>>
 
 \* ----------------------------------------------------------------- collector
 Recv ==
@@ -126,14 +139,14 @@ Recv ==
     /\ IF result[Head(chan)] = "err"
        THEN col' = "retErr" /\ rxOpen' = FALSE /\ chan' = <<>> /\ acc' = acc     \* `result?`
        ELSE col' = col /\ rxOpen' = rxOpen /\ chan' = Tail(chan) /\ acc' = Append(acc, Head(chan))
-    /\ UNCHANGED <<result, pool, quitMsgs, wpc, wfile, active, quitNow, txMain, main>>
+    /\ UNCHANGED <<result, pool, quitMsgs, wpc, wfile, active, quitNow, txMain, main, genres, todo, wrote>>
 
 \* the iterator ends when the channel is empty and every Sender is gone
 ColEnd ==
     /\ col = "run" /\ chan = <<>>
     /\ ~txMain /\ \A w \in Workers : Finished(w)
     /\ col' = "retOk" /\ rxOpen' = FALSE
-    /\ UNCHANGED <<result, pool, quitMsgs, wpc, wfile, active, quitNow, chan, acc, txMain, main>>
+    /\ UNCHANGED <<result, pool, quitMsgs, wpc, wfile, active, quitNow, chan, acc, txMain, main, genres, todo, wrote>>
 
 \* ----------------------------------------------------------------- main
 \* thread::scope returns once every worker thread has finished; a dead worker makes join().unwrap() panic
@@ -143,25 +156,43 @@ ScopeEnd ==
     /\ IF \E w \in Workers : wpc[w] = "dead"
        THEN main' = "exit101" /\ txMain' = txMain
        ELSE main' = "joincol" /\ txMain' = FALSE                 \* drop(tx)
-    /\ UNCHANGED <<result, pool, quitMsgs, wpc, wfile, active, quitNow, chan, rxOpen, col, acc>>
+    /\ UNCHANGED <<result, pool, quitMsgs, wpc, wfile, active, quitNow, chan, rxOpen, col, acc, genres, todo, wrote>>
 
 HasErrors == \E i \in 1..Len(acc) : result[acc[i]] = "bad"
 
-\* collector_thread.join(); reconcile; check_parse_errors; write_generated
+\* collector_thread.join(); reconcile; check_parse_errors: ALL errors are known before the first output is generated
 JoinCol ==
     /\ main = "joincol"
     /\ col \in {"retErr", "retOk"}
-    /\ main' = IF col = "retErr" \/ HasErrors THEN "exit1" ELSE "exit0"
-    /\ UNCHANGED <<result, pool, quitMsgs, wpc, wfile, active, quitNow, chan, rxOpen, col, acc, txMain>>
+    /\ IF col = "retErr" \/ HasErrors
+       THEN main' = "exit1" /\ todo' = todo
+       ELSE main' = "generate" /\ todo' = SortSeq(SetToSeq({OutOf[acc[i]] : i \in 1..Len(acc)}), LAMBDA a, b : Before(a, b))
+    /\ UNCHANGED <<result, pool, quitMsgs, wpc, wfile, active, quitNow, chan, rxOpen, col, acc, txMain, genres, wrote>>
+
+\* write_generated, one output after the other (crate name order): lang.generate_types, then check_write_file
+\* (Writer.tla says what the writer does with the bytes). A refusal by the backend ends the run: outputs generated
+\* before it stay written.
+GenWrite ==
+    /\ main = "generate" /\ todo # <<>>
+    /\ IF genres[Head(todo)] = "generr"
+       THEN main' = "exit1" /\ UNCHANGED <<todo, wrote>>
+       ELSE main' = main /\ todo' = Tail(todo) /\ wrote' = wrote \cup {Head(todo)}
+    /\ UNCHANGED <<result, pool, quitMsgs, wpc, wfile, active, quitNow, chan, rxOpen, col, acc, txMain, genres>>
+
+\* nothing left to generate. -o with no annotated item anywhere: "Could not get parsed data for single file output"
+GenDone ==
+    /\ main = "generate" /\ todo = <<>>
+    /\ main' = IF SingleFile /\ wrote = {} THEN "exit1" ELSE "exit0"
+    /\ UNCHANGED <<result, pool, quitMsgs, wpc, wfile, active, quitNow, chan, rxOpen, col, acc, txMain, genres, todo, wrote>>
 
 Done == main \in Exits /\ UNCHANGED vars
 
 Next == \/ \E w \in Workers : GetWork(w) \/ IdleWake(w) \/ Parse(w) \/ Send(w) \/ SendRet(w) \/ Quit(w)
-        \/ Recv \/ ColEnd \/ ScopeEnd \/ JoinCol \/ Done
+        \/ Recv \/ ColEnd \/ ScopeEnd \/ JoinCol \/ GenWrite \/ GenDone \/ Done
 
 Fairness == /\ \A w \in Workers : WF_vars(GetWork(w)) /\ WF_vars(IdleWake(w)) /\ WF_vars(Parse(w))
                                    /\ WF_vars(Send(w)) /\ WF_vars(SendRet(w)) /\ WF_vars(Quit(w))
-            /\ WF_vars(Recv) /\ WF_vars(ColEnd) /\ WF_vars(ScopeEnd) /\ WF_vars(JoinCol)
+            /\ WF_vars(Recv) /\ WF_vars(ColEnd) /\ WF_vars(ScopeEnd) /\ WF_vars(JoinCol) /\ WF_vars(GenWrite) /\ WF_vars(GenDone)
 Spec == Init /\ [][Next]_vars /\ Fairness
 
 \* ----------------------------------------------------------------- data path (C06)
@@ -175,22 +206,27 @@ OkFiles == {f \in Files : result[f] \in {"ok", "bad"}}
 \* C07: the run ends, and it ends with output or a diagnostic, never with a panic
 Terminates == <>(main \in Exits)
 NoPanicExit == main # "exit101"
+NothingToGenerate == SingleFile /\ \A f \in Files : result[f] = "none"
+Refused == \E o \in Outs : genres[o] = "generr"
 ExitOk ==
     /\ main = "exit0" => /\ \A f \in Files : result[f] \in {"ok", "none"}
                          /\ {acc[i] : i \in 1..Len(acc)} = OkFiles /\ Len(acc) = Cardinality(OkFiles)
-    /\ main = "exit1" => \E f \in Files : result[f] \in {"bad", "err"}
+                         /\ wrote = {OutOf[f] : f \in OkFiles}                \* "exits 0 after writing the requested output": all of it
+    /\ main = "exit1" => (\E f \in Files : result[f] \in {"bad", "err"}) \/ Refused \/ NothingToGenerate
 \* a clean tree must not fail
-CleanSucceeds == (main \in Exits /\ \A f \in Files : result[f] \in {"ok", "none"}) => main = "exit0"
+CleanSucceeds == (main \in Exits /\ (\A f \in Files : result[f] \in {"ok", "none"}) /\ ~Refused /\ ~NothingToGenerate) => main = "exit0"
+\* C08 / C17: when some file is rejected (parse errors, unreadable), NO output is generated or handed to the writer - at no point of the run
+NoWriteWithErrors == (wrote # {}) => (col = "retOk" /\ ~HasErrors)
+\* C14: every output is handed to the writer at most once, and only outputs that some accepted file contributes to
+WroteOk == wrote \subseteq {OutOf[acc[i]] : i \in 1..Len(acc)}
 
 \* C06: the bytes are a function of the source tree, not of the schedule. Canonical = any fixed arrival order.
-RECURSIVE SeqOfSet(_)
-SeqOfSet(S) == IF S = {} THEN <<>> ELSE LET x == CHOOSE y \in S : TRUE IN <<x>> \o SeqOfSet(S \ {x})
 Deterministic == main = "exit0" => Output(acc) = Output(SeqOfSet(OkFiles))
 
 \* reachability query (expected to be VIOLATED): TLC's counter-example is a schedule in which a result
 \* is sent after the collector has gone; it is replayed on the real binary through the gates
 NoLateSend == ~(\E w \in Workers : wpc[w] = "send" /\ ~rxOpen)
 
-TypeOk == /\ active \in 0..Cardinality(Workers) /\ Len(chan) <= Cap
+TypeOk == /\ active \in 0..Cardinality(Workers) /\ Len(chan) <= Cap /\ wrote \subseteq Outs
           /\ wpc \in [Workers -> {"get", "parse", "send", "sent", "quit", "idle", "exited", "dead"}]
 =============================================================================
